@@ -50,10 +50,11 @@ theorem filter_length_lt_iff {α : Type} (p : α → Bool) (l : List α) :
       simp [hp']
       omega
 
-/-- `n_notes < len(messages)` iff some tuple has severity error — provided no error line contains the marker -/
-theorem notes_counted (ls : List Line)
-    (h : ∀ l ∈ ls, l.sev = .error → isInfix noteMarker (format l) = false) :
-    (countStats (ls.map format)).2 < (ls.map format).length ↔ ∃ l ∈ ls, l.sev = .error := by
+/-- if the rule recognises exactly the note-severity lines as notes, `n_notes < len(messages)` iff some tuple
+    has severity error -/
+theorem notes_counted (r : Rule) (ls : List Line)
+    (h : ∀ l ∈ ls, isNoteLine r (format l) = true ↔ l.sev = .note) :
+    (countStats r (ls.map format)).2 < (ls.map format).length ↔ ∃ l ∈ ls, l.sev = .error := by
   simp only [countStats]
   rw [filter_length_lt_iff]
   constructor
@@ -62,9 +63,88 @@ theorem notes_counted (ls : List Line)
     refine ⟨l, hl, ?_⟩
     cases hs : l.sev with
     | error => rfl
-    | note => rw [format_note_has_marker l hs] at hf; cases hf
+    | note => rw [(h l hl).2 hs] at hf; cases hf
   · rintro ⟨l, hl, he⟩
-    exact ⟨format l, List.mem_map.2 ⟨l, hl, rfl⟩, h l hl he⟩
+    refine ⟨format l, List.mem_map.2 ⟨l, hl, rfl⟩, ?_⟩
+    cases hn : isNoteLine r (format l) with
+    | false => rfl
+    | true => have := (h l hl).1 hn; rw [he] at this; cases this
+
+/-- the status is the truth whenever the rule classifies every line by its severity field -/
+theorem exit_of_classifier (r : Rule) (ls : List Line) (blockers : Bool)
+    (hcls : ∀ l ∈ ls, isNoteLine r (format l) = true ↔ l.sev = .note)
+    (hshown : blockers = true → ∃ l ∈ ls, l.sev = .error) :
+    exitCode r (ls.map format) blockers = truth ls blockers := by
+  have hcount := notes_counted r ls hcls
+  unfold exitCode truth
+  by_cases hex : ∃ l ∈ ls, l.sev = .error
+  · have hlt := hcount.2 hex
+    have hne : (ls.map format).isEmpty = false := by
+      obtain ⟨l, hl, _⟩ := hex
+      cases ls with
+      | nil => cases hl
+      | cons _ _ => rfl
+    have hany : ls.any (fun l => decide (l.sev = .error)) = true := by
+      obtain ⟨l, hl, he⟩ := hex
+      exact List.any_eq_true.2 ⟨l, hl, by simp [he]⟩
+    have hcond : (!(ls.map format).isEmpty && decide ((countStats r (ls.map format)).2 < (ls.map format).length)) = true := by
+      rw [hne, decide_eq_true hlt]; rfl
+    rw [if_pos hcond]
+    cases blockers <;> simp [hany]
+  · have hnlt : ¬ (countStats r (ls.map format)).2 < (ls.map format).length := fun h => hex (hcount.1 h)
+    have hb : blockers = false := by
+      cases hbl : blockers with
+      | false => rfl
+      | true => exact absurd (hshown hbl) hex
+    have hany : ls.any (fun l => decide (l.sev = .error)) = false := by
+      cases h : ls.any (fun l => decide (l.sev = .error)) with
+      | false => rfl
+      | true =>
+        obtain ⟨l, hl, he⟩ := List.any_eq_true.1 h
+        exact absurd ⟨l, hl, by simpa using he⟩ hex
+    have hcond : ¬ (!(ls.map format).isEmpty && decide ((countStats r (ls.map format)).2 < (ls.map format).length)) = true := by
+      simp only [Bool.and_eq_true, decide_eq_true_eq, not_and]
+      intro _; exact hnlt
+    rw [if_neg hcond]
+    simp [hb, hany]
+
+/-! ### the `firstMarker` rule -/
+
+def startsMarker (s : List Char) : Bool := isPrefix errorMarker s || isPrefix noteMarker s
+
+/-- no marker starts inside `loc` when it is followed by `tail` -/
+def cleanBefore (tail : List Char) : List Char → Bool
+  | [] => true
+  | c :: cs => !startsMarker (c :: cs ++ tail) && cleanBefore tail cs
+
+/-- everything of a formatted line after the location -/
+def lineTail (l : Line) : List Char := [':', ' '] ++ sevText l.sev ++ [':', ' '] ++ l.message ++ l.codeSuffix
+
+/-- the location part (`file:line`) of the line does not itself start `": error:"` / `": note:"` -/
+def CleanLoc (l : Line) : Prop := cleanBefore (lineTail l) l.srcloc = true
+instance (l : Line) : Decidable (CleanLoc l) := by unfold CleanLoc; infer_instance
+
+theorem firstMarker_append (tail : List Char) : ∀ loc, cleanBefore tail loc = true →
+    firstMarker (loc ++ tail) = firstMarker tail := by
+  intro loc
+  induction loc with
+  | nil => intro _; rfl
+  | cons c cs ih =>
+    intro h
+    simp only [cleanBefore, Bool.and_eq_true, Bool.not_eq_true', startsMarker, Bool.or_eq_false_iff] at h
+    obtain ⟨⟨h1, h2⟩, h3⟩ := h
+    show firstMarker (c :: (cs ++ tail)) = firstMarker tail
+    have h1' : isPrefix errorMarker (c :: (cs ++ tail)) = false := h1
+    have h2' : isPrefix noteMarker (c :: (cs ++ tail)) = false := h2
+    simp only [firstMarker, h1', h2', Bool.false_eq_true, if_false]
+    exact ih h3
+
+theorem firstMarker_lineTail (l : Line) : firstMarker (lineTail l) = some l.sev := by
+  cases hs : l.sev <;> simp [lineTail, hs, sevText, firstMarker, isPrefix, errorMarker, noteMarker]
+
+theorem firstMarker_format (l : Line) (h : CleanLoc l) : firstMarker (format l) = some l.sev := by
+  have : format l = l.srcloc ++ lineTail l := by simp [format, lineTail, List.append_assoc]
+  rw [this, firstMarker_append _ _ h, firstMarker_lineTail]
 
 end ExitStatus
 
